@@ -151,6 +151,21 @@ func genC18(t *rapid.T) *c18Case {
 		c.Tree = tr
 		c.Requests = []string{rapid.SampledFrom([]string{`dir/rel\\*`, `rel\\*`, `dir/rel\\?ur`, `/dir/rel\\[a-c]ur`, `rel\\to?`}).Draw(t, "bw.req")}
 	}
+	// steered shape: a link whose own name is as long as a name can be (255 bytes)
+	if rapid.IntRange(0, 11).Draw(t, "longlink") == 0 {
+		long := strings.Repeat(rapid.SampledFrom([]string{"L", "m"}).Draw(t, "ll.c"), rapid.SampledFrom([]int{255, 255, 254, 200}).Draw(t, "ll.n"))
+		tr := &h.Tree{Nodes: []h.Node{
+			{Path: "dir", Kind: h.KDir, Perm: 0o755},
+			{Path: "dir/" + long, Kind: h.KSymlink, Perm: 0o777, Target: rapid.SampledFrom([]string{"../store/v1", "/store/v1"}).Draw(t, "ll.t1")},
+			{Path: long, Kind: h.KSymlink, Perm: 0o777, Target: rapid.SampledFrom([]string{"store/other", "/store/other", "dir"}).Draw(t, "ll.t2")},
+			{Path: "store", Kind: h.KDir, Perm: 0o755},
+			{Path: "store/v1", Kind: h.KFile, Perm: 0o644, Size: 9, Seed: 7},
+			{Path: "store/other", Kind: h.KFile, Perm: 0o644, Size: 9, Seed: 8},
+		}}
+		tr.Normalize()
+		c.Tree = tr
+		c.Requests = []string{rapid.SampledFrom([]string{"dir/" + long, long, "dir/" + long[:1] + "*", long[:1] + "*", long + "/" + long}).Draw(t, "ll.req")}
+	}
 	// steered shape: one request that reads a few hundred links (no chain longer than
 	// one hop): budgets and guards must count per chain, not per call
 	if rapid.IntRange(0, 1999).Draw(t, "manylinks") == 0 {
@@ -541,7 +556,10 @@ func c18Check(env *h.Env, c *c18Case) error {
 		}
 		dr := h.ResolveIn(dt, o.exp, true)
 		if !dr.Exists || dr.Final != o.r.Final {
-			if cl := classify(o); cl != "" {
+			// (every obligation of every request is covered by the list at this point. The
+			// "middle wildcard" finding is about links FollowLinks does not read, i.e. about
+			// the list: it cannot excuse a transfer that drops what the list does name)
+			if cl := classify(o); cl != "" && cl != "followlinks-middle-wildcard-not-followed" {
 				return env.Known(cl, "follow-paths %q: %q resolves to %q in the source but to %q (exists=%v) in the transferred tree", c.Requests, o.exp, o.r.Final, dr.Final, dr.Exists)
 			}
 			return fmt.Errorf("follow-paths %q: in the source %q resolves to %q, in the transferred tree to %q (exists=%v); result was %q", c.Requests, o.exp, o.r.Final, dr.Final, dr.Exists, res)
